@@ -12,7 +12,18 @@ m['checks'].append({
     "level_claimed": {"category": "exploration", "design_ref": "DESIGN.md §4 %s" % pid, "text": text},
     "level_note": note})
 m['checks'].sort(key=lambda c: c['property_id'])
-m['engines'][0]['serves_properties'] = [c['property_id'] for c in m['checks']]
+PY = {'C07', 'C08', 'C09'}
+m['engines'] = [e for e in m['engines'] if e.get('path') != 'src/py']
+m['engines'][0]['serves_properties'] = [c['property_id'] for c in m['checks'] if c['property_id'] not in PY]
+pyp = [c['property_id'] for c in m['checks'] if c['property_id'] in PY]
+if pyp:
+    m['engines'].append({'name': 'hypothesis harnesses', 'path': 'src/py', 'serves_properties': pyp,
+                         'kind_free_text': 'property-based testing: Hypothesis (tooling venv, python3-vt) generates and shrinks C translation units; '
+                                           'src/py/pyharness.py speaks the same worker protocol as the C++ runner; c2m built from the working tree '
+                                           'with ASan is run as a subprocess, gcc is the reference'})
+for c in m['checks']:
+    if c['property_id'] in PY:
+        c['engine'] = 'hypothesis harnesses'
 claimed = {c['property_id'] for c in m['checks']}
 m['not_applicable'] = [x for x in m['not_applicable'] if x['property_id'] not in claimed]
 json.dump(m, open(p, 'w'), indent=1)
